@@ -6,6 +6,10 @@
 //
 // Program (shapes of test_epoch.cpp concurrent_works_fine* and docs/concurrent/epoch.en.md):
 //   one Epoch, one harness-level `std::atomic<Node*> head`; per case EITHER thread-local style OR Accessor style.
+//   About one case in three has TWO independent Epoch instances A and B (two lock-free containers read by the same
+//   threads), each with its own head / node chain / style; reader regions on A and B nest in either order, are
+//   left in LIFO or non-LIFO order, overlap partially or follow one another; writers serve both. Every oracle is
+//   applied per Epoch instance (struct Dom).
 //   writers: new node; old = head.exchange(new, acq_rel); v = epoch.tick(); later `v <= low_water_mark()` => the
 //            old node is "reclaimed" = poisoned (no freed-memory checker exists: flag + Tracked<> payload).
 //   readers: lock (nesting <= 3); p = head.load(acquire); dereference p until the OUTERMOST unlock; Accessor
@@ -38,6 +42,7 @@ constexpr uint64_t POISON = 0xDEADDEADDEADDEADull;
 
 struct Node {
   int id = 0;
+  int dom = 0;                  // the Epoch instance (World::dom[]) whose chain this node belongs to
   int writer = -1;              // owner (the writer that unlinked it), -1 while linked
   bool poisoned = false;        // "memory was handed back"
   uint64_t poisoned_step = 0;
@@ -69,24 +74,35 @@ struct Handle {
   bool has_acc = false;
   int depth = 0;
   int region = -1;
+  uint64_t open_seq = 0;        // order of the outermost lock among all regions of the case (LIFO / non-LIFO labels)
+  int closed_here = 0;          // regions this thread closed through this handle (label only)
   std::vector<Node*> held;
 };
 
 struct Mailbox {
-  Handle h;
+  Handle h[2];  // per Epoch instance
   std::atomic<int> ready{0};
 };
 
-struct World {
-  Epoch epoch;  // first member: destroyed last (accessors in handles / mailboxes are released before)
+// One Epoch instance and everything it protects.
+struct Dom {
+  Epoch epoch;
+  int idx = 0;
   std::atomic<Node*> head{nullptr};
-  std::vector<std::unique_ptr<Node>> nodes;
   std::vector<Region> regions;
   bool tl_style = false;
   int publish_mode = 0;  // 0: exchange(acq_rel) (test_epoch.cpp); 1: store(release); 2: store(seq_cst) - single writer only
   uint64_t lock_begin_count = 0;  // outermost locks started
   int locks_inflight = 0;         // outermost locks started and not yet returned
   uint64_t last_tick = 0;
+  char name() const { return (char)('A' + idx); }
+};
+
+struct World {
+  std::unique_ptr<Dom> dom[2];  // first member: destroyed last (accessors in handles / mailboxes are released before)
+  int ndom = 1;
+  uint64_t open_seq = 0;
+  std::vector<std::unique_ptr<Node>> nodes;
   bool nt = false;
   int reclaimed_in_run = 0;
   std::vector<std::unique_ptr<Mailbox>> mail;  // mail[j]: handed to reader j
@@ -94,9 +110,10 @@ struct World {
 };
 World* W;
 
-Node* new_node() {
+Node* new_node(int dom) {
   auto n = std::make_unique<Node>();
   n->id = (int)W->nodes.size();
+  n->dom = dom;
   n->payload.set(payload_of(n->id), "node payload");
   Node* p = n.get();
   W->nodes.push_back(std::move(n));
@@ -108,15 +125,18 @@ enum ROp : uint8_t { R_LOCK, R_UNLOCK, R_LOAD, R_DEREF, R_POINT };
 enum SessEnd : uint8_t { E_RELEASE, E_KEEP, E_DESTROY, E_MOVE_ASSIGN, E_HANDOFF };
 enum SessSrc : uint8_t { S_NEW, S_KEPT, S_RECV };
 struct Session {
-  SessSrc src = S_NEW;
+  bool uses[2] = {true, false};  // which Epoch instances this session works on
+  SessSrc src[2] = {S_NEW, S_NEW};
   std::vector<ROp> ops;
   std::vector<uint8_t> arg;  // deref index selector
-  SessEnd end = E_RELEASE;
+  std::vector<uint8_t> dom;  // Epoch instance the op applies to
+  SessEnd end[2] = {E_RELEASE, E_RELEASE};
 };
 struct ReaderPlan {
   int wave = 0;
   int send_to = -1;    // reader index that receives this reader's last session
   int recv_from = -1;
+  int recv_at = -1;    // session that starts with the hand-over
   std::vector<Session> sessions;
 };
 
@@ -128,205 +148,256 @@ struct ReaderPlan {
 // That is outside the listed property, so the reads of a region leave the HB check as soon as a slot publication
 // may follow its unlock: when an outermost lock() starts after the region was closed, or is in flight while it
 // closes. Reads of regions still open always stay under the check, and so do closed regions nothing locks after.
+// (All per Epoch instance: a lock on B publishes into B's slots only.)
 void forget_reads(Region& r) {
   for (Read& rd : r.reads) rd.n->payload.ts.rclk[rd.tid] = 0;
   r.hb_cleared = true;
 }
-void open_region(Handle& h) {
-  for (Region& r : W->regions)
+void open_region(Dom& d, Handle& h) {
+  for (Region& r : d.regions)
     if (r.closed && !r.hb_cleared) forget_reads(r);
-  W->regions.emplace_back();
-  h.region = (int)W->regions.size() - 1;
-  W->regions[(size_t)h.region].lock_begin_step = dsched::step();
-  W->lock_begin_count++;
-  W->locks_inflight++;
+  d.regions.emplace_back();
+  h.region = (int)d.regions.size() - 1;
+  d.regions[(size_t)h.region].lock_begin_step = dsched::step();
+  d.lock_begin_count++;
+  d.locks_inflight++;
 }
-void region_opened(Handle& h) {
-  W->regions[(size_t)h.region].lock_done_step = dsched::step();
-  W->locks_inflight--;
+void region_opened(Dom& d, Handle& h) {
+  d.regions[(size_t)h.region].lock_done_step = dsched::step();
+  d.locks_inflight--;
+  h.open_seq = ++W->open_seq;
 }
 
-void do_lock(Handle& h) {
+// cur: the handles of the calling thread, one per Epoch instance; e: the instance the op applies to
+void do_lock(Handle* cur, int e) {
+  Handle& h = cur[e];
+  Dom& d = *W->dom[e];
   bool outer = h.depth == 0;
-  if (outer) open_region(h);
-  if (W->tl_style) W->epoch.lock();
+  if (outer) open_region(d, h);
+  if (d.tl_style) d.epoch.lock();
   else h.acc.lock();
-  if (outer) region_opened(h);
-  else dsched::label("nested_lock");
-  TRACE("lock done depth=%d region=%d", h.depth + 1, h.region);
+  if (outer) {
+    region_opened(d, h);
+    if (W->ndom == 2) {
+      const Handle& o = cur[1 - e];
+      if (o.depth > 0) {
+        dsched::label(e == 1 ? "region_B_inside_region_A" : "region_A_inside_region_B");
+        if (d.tl_style && W->dom[1 - e]->tl_style) dsched::label("tl_region_inside_tl_region_other_epoch");
+      } else if (o.closed_here > 0) {
+        dsched::label("region_after_region_of_other_epoch");
+      }
+    }
+  } else {
+    dsched::label("nested_lock");
+  }
+  TRACE("%c lock done depth=%d region=%d", d.name(), h.depth + 1, h.region);
   h.depth++;
 }
-void do_unlock(Handle& h) {
+void do_unlock(Handle* cur, int e) {
+  Handle& h = cur[e];
+  Dom& d = *W->dom[e];
   bool outer = h.depth == 1;
   if (outer) {
-    W->regions[(size_t)h.region].unlock_begun = true;
+    d.regions[(size_t)h.region].unlock_begun = true;
     h.held.clear();
+    if (W->ndom == 2 && cur[1 - e].depth > 0)
+      dsched::label(cur[1 - e].open_seq > h.open_seq ? "non_lifo_unlock_across_epochs" : "lifo_unlock_across_epochs");
   }
-  if (W->tl_style) W->epoch.unlock();
+  if (d.tl_style) d.epoch.unlock();
   else h.acc.unlock();
   h.depth--;
-  TRACE("unlock done depth=%d region=%d", h.depth, h.region);
+  TRACE("%c unlock done depth=%d region=%d", d.name(), h.depth, h.region);
   if (outer) {
-    W->regions[(size_t)h.region].closed = true;
-    W->regions[(size_t)h.region].closed_step = dsched::step();
-    if (W->locks_inflight > 0) forget_reads(W->regions[(size_t)h.region]);
+    d.regions[(size_t)h.region].closed = true;
+    d.regions[(size_t)h.region].closed_step = dsched::step();
+    if (d.locks_inflight > 0) forget_reads(d.regions[(size_t)h.region]);
     h.region = -1;
+    h.closed_here++;
   }
 }
-void do_load(Handle& h) {
-  Node* p = W->head.load(std::memory_order_acquire);
+void do_load(Handle* cur, int e) {
+  Handle& h = cur[e];
+  Node* p = W->dom[e]->head.load(std::memory_order_acquire);
   h.held.push_back(p);
-  TRACE("load head -> node %d", p->id);
+  TRACE("load head %c -> node %d", W->dom[e]->name(), p->id);
   dsched::point();
 }
-void do_deref(Handle& h, unsigned sel) {
+void do_deref(Handle* cur, int e, unsigned sel) {
+  Handle& h = cur[e];
+  Dom& d = *W->dom[e];
   if (h.held.empty()) return;
   Node* n = h.held[sel % h.held.size()];
-  Region& r = W->regions[(size_t)h.region];
+  Region& r = d.regions[(size_t)h.region];
+  if (n->dom != e) dsched::fail("harness", "node %d of epoch %d held by a region of epoch %d", n->id, n->dom, e);
   if (n->poisoned)
     dsched::fail("use-after-reclaim",
-                 "T%d dereferences node %d inside a region (locked at step %lu, nesting %d) but the node was reclaimed at step %lu "
-                 "(unlinked at step %lu by writer %d, tick %lu taken at steps %lu..%lu)",
-                 dsched::tid(), n->id, (unsigned long)r.lock_done_step, h.depth, (unsigned long)n->poisoned_step,
+                 "T%d dereferences node %d inside a region of epoch %c (locked at step %lu, nesting %d) but the node was reclaimed at "
+                 "step %lu (unlinked at step %lu by writer %d, tick %lu taken at steps %lu..%lu)",
+                 dsched::tid(), n->id, d.name(), (unsigned long)r.lock_done_step, h.depth, (unsigned long)n->poisoned_step,
                  (unsigned long)n->unlink_begin_step, n->writer, (unsigned long)n->tick, (unsigned long)n->tick_begin_step,
                  (unsigned long)n->tick_end_step);
   uint64_t v = n->payload.get("node payload");
   r.reads.push_back(Read{n, dsched::tid()});
-  TRACE("deref node %d in region %d", n->id, h.region);
+  TRACE("deref node %d in region %d of %c", n->id, h.region, d.name());
   if (v != payload_of(n->id))
-    dsched::fail("use-after-reclaim", "T%d reads payload %lx of node %d inside a region", dsched::tid(), (unsigned long)v, n->id);
+    dsched::fail("use-after-reclaim", "T%d reads payload %lx of node %d inside a region of epoch %c", dsched::tid(), (unsigned long)v, n->id,
+                 d.name());
   dsched::point();
   if (n->poisoned)
-    dsched::fail("use-after-reclaim", "node %d was reclaimed (step %lu) while T%d was dereferencing it inside a region locked at step %lu",
-                 n->id, (unsigned long)n->poisoned_step, dsched::tid(), (unsigned long)r.lock_done_step);
+    dsched::fail("use-after-reclaim",
+                 "node %d was reclaimed (step %lu) while T%d was dereferencing it inside a region of epoch %c locked at step %lu", n->id,
+                 (unsigned long)n->poisoned_step, dsched::tid(), d.name(), (unsigned long)r.lock_done_step);
   dsched::label("deref_in_region");
+  if (e == 1) dsched::label("deref_in_region_of_B");
 }
 
 void run_reader(int me, const ReaderPlan& plan) {
-  Handle cur;  // the accessor this thread currently works with
+  Handle cur[2];  // the accessor / region this thread currently works with, per Epoch instance
   for (size_t si = 0; si < plan.sessions.size(); si++) {
     const Session& s = plan.sessions[si];
-    if (!W->tl_style) {
-      if (s.src == S_RECV) {
-        Mailbox& mb = *W->mail[(size_t)me];
-        while (mb.ready.load(std::memory_order_acquire) == 0) dsched::yield_point();
+    bool recv = false;
+    for (int e = 0; e < W->ndom; e++)
+      if (s.uses[e] && !W->dom[e]->tl_style && s.src[e] == S_RECV) recv = true;
+    if (recv) {
+      Mailbox& mb = *W->mail[(size_t)me];
+      while (mb.ready.load(std::memory_order_acquire) == 0) dsched::yield_point();
+    }
+    for (int e = 0; e < W->ndom; e++) {
+      if (!s.uses[e] || W->dom[e]->tl_style) continue;
+      Handle& h = cur[e];
+      if (s.src[e] == S_RECV) {
+        Handle& in = W->mail[(size_t)me]->h[e];
         // a kept accessor of ours is unlocked: move-assigning over it swaps, the old one dies with the mailbox copy
-        cur.acc = std::move(mb.h.acc);
-        cur.has_acc = true;
-        cur.depth = mb.h.depth;
-        cur.region = mb.h.region;
-        cur.held = std::move(mb.h.held);
-        mb.h.has_acc = false;
-        dsched::label(cur.depth > 0 ? "received_locked_region" : "received_unlocked_accessor");
-      } else if (s.src == S_NEW || !cur.has_acc) {
-        if (cur.has_acc) {
-          cur.acc.release();
+        h.acc = std::move(in.acc);
+        h.has_acc = true;
+        h.depth = in.depth;
+        h.region = in.region;
+        h.open_seq = in.open_seq;
+        h.held = std::move(in.held);
+        in.has_acc = false;
+        dsched::label(h.depth > 0 ? "received_locked_region" : "received_unlocked_accessor");
+      } else if (s.src[e] == S_NEW || !h.has_acc) {
+        if (h.has_acc) {
+          h.acc.release();
           dsched::label("accessor_released");
         }
-        cur.acc = W->epoch.create_accessor();
-        cur.has_acc = true;
+        h.acc = W->dom[e]->epoch.create_accessor();
+        h.has_acc = true;
         dsched::label("accessor_created");
       }
     }
     for (size_t i = 0; i < s.ops.size(); i++) {
+      int e = s.dom[i];
       switch (s.ops[i]) {
-        case R_LOCK: do_lock(cur); break;
-        case R_UNLOCK: do_unlock(cur); break;
-        case R_LOAD: do_load(cur); break;
-        case R_DEREF: do_deref(cur, s.arg[i]); break;
+        case R_LOCK: do_lock(cur, e); break;
+        case R_UNLOCK: do_unlock(cur, e); break;
+        case R_LOAD: do_load(cur, e); break;
+        case R_DEREF: do_deref(cur, e, s.arg[i]); break;
         case R_POINT: dsched::yield_point(); break;  // let the others run while the region is open
       }
     }
-    if (W->tl_style) continue;
-    switch (s.end) {
-      case E_RELEASE:
-        cur.acc.release();
-        cur.has_acc = false;
-        dsched::label("accessor_released");
-        break;
-      case E_KEEP:
-        break;
-      case E_DESTROY: {
-        Epoch::Accessor dying(std::move(cur.acc));
-        cur.has_acc = false;
-        dsched::point();
-        dsched::label("accessor_destroyed");
-        break;
-      }
-      case E_MOVE_ASSIGN: {
-        // operator= swaps: the old (unlocked) accessor ends up in the temporary and is released with it
-        Epoch::Accessor fresh = W->epoch.create_accessor();
-        cur.acc = std::move(fresh);
-        dsched::point();
-        dsched::label("accessor_move_assigned");
-        break;
-      }
-      case E_HANDOFF: {
-        Mailbox& mb = *W->mail[(size_t)plan.send_to];
-        mb.h.acc = std::move(cur.acc);
-        mb.h.has_acc = true;
-        mb.h.depth = cur.depth;
-        mb.h.region = cur.region;
-        mb.h.held = std::move(cur.held);
-        cur = Handle();
-        mb.ready.store(1, std::memory_order_release);
-        dsched::label(mb.h.depth > 0 ? "handoff_locked" : "handoff_unlocked");
-        break;
+    bool posted = false;
+    for (int e = 0; e < W->ndom; e++) {
+      if (!s.uses[e] || W->dom[e]->tl_style) continue;
+      Handle& h = cur[e];
+      switch (s.end[e]) {
+        case E_RELEASE:
+          h.acc.release();
+          h.has_acc = false;
+          dsched::label("accessor_released");
+          break;
+        case E_KEEP:
+          break;
+        case E_DESTROY: {
+          Epoch::Accessor dying(std::move(h.acc));
+          h.has_acc = false;
+          dsched::point();
+          dsched::label("accessor_destroyed");
+          break;
+        }
+        case E_MOVE_ASSIGN: {
+          // operator= swaps: the old (unlocked) accessor ends up in the temporary and is released with it
+          Epoch::Accessor fresh = W->dom[e]->epoch.create_accessor();
+          h.acc = std::move(fresh);
+          dsched::point();
+          dsched::label("accessor_move_assigned");
+          break;
+        }
+        case E_HANDOFF: {
+          Handle& out = W->mail[(size_t)plan.send_to]->h[e];
+          out.acc = std::move(h.acc);
+          out.has_acc = true;
+          out.depth = h.depth;
+          out.region = h.region;
+          out.open_seq = h.open_seq;
+          out.held = std::move(h.held);
+          h = Handle();
+          dsched::label(out.depth > 0 ? "handoff_locked" : "handoff_unlocked");
+          posted = true;
+          break;
+        }
       }
     }
+    if (posted) W->mail[(size_t)plan.send_to]->ready.store(1, std::memory_order_release);
   }
-  if (!W->tl_style && cur.has_acc) {
-    // kept beyond the life of this thread, unlocked: must never hold the mark back
-    auto k = std::make_unique<Handle>();
-    k->acc = std::move(cur.acc);
-    k->has_acc = true;
-    W->kept.push_back(std::move(k));
-    dsched::label("accessor_kept_unlocked");
-  }
+  for (int e = 0; e < W->ndom; e++)
+    if (!W->dom[e]->tl_style && cur[e].has_acc) {
+      // kept beyond the life of this thread, unlocked: must never hold the mark back
+      auto k = std::make_unique<Handle>();
+      k->acc = std::move(cur[e].acc);
+      k->has_acc = true;
+      W->kept.push_back(std::move(k));
+      dsched::label("accessor_kept_unlocked");
+    }
 }
 
 // ---- writer side ----------------------------------------------------------------
 enum WOp : uint8_t { W_REPLACE, W_POLL, W_REPLACE2, W_WAIT };
 struct WriterPlan {
   std::vector<WOp> ops;
+  std::vector<uint8_t> dom;  // Epoch instance the op applies to
 };
-struct WriterState {
-  int id;
+struct WriterDomState {  // what a writer remembers about one Epoch instance
   std::vector<Node*> pending;
   bool have_prev = false;
   uint64_t prev_lwm = 0, prev_count = 0;
   bool prev_clean = false;
 };
+struct WriterState {
+  int id;
+  WriterDomState ds[2];
+};
 
-void unlink(WriterState& ws, int n) {
+void unlink(WriterState& ws, int e, int n) {
+  Dom& d = *W->dom[e];
   uint64_t b = dsched::step();
   std::vector<Node*> olds;
   for (int i = 0; i < n; i++) {
-    Node* fresh = new_node();
+    Node* fresh = new_node(e);
     Node* old;
-    if (W->publish_mode == 0) {
-      old = W->head.exchange(fresh, std::memory_order_acq_rel);
+    if (d.publish_mode == 0) {
+      old = d.head.exchange(fresh, std::memory_order_acq_rel);
     } else {
       // single writer: plain replace with the store order a user would pick
-      old = W->head.load(std::memory_order_relaxed);
-      W->head.store(fresh, W->publish_mode == 1 ? std::memory_order_release : std::memory_order_seq_cst);
+      old = d.head.load(std::memory_order_relaxed);
+      d.head.store(fresh, d.publish_mode == 1 ? std::memory_order_release : std::memory_order_seq_cst);
     }
     old->writer = ws.id;
-    TRACE("unlinked node %d, new head node %d", old->id, fresh->id);
+    TRACE("%c unlinked node %d, new head node %d", d.name(), old->id, fresh->id);
     old->unlink_begin_step = b;
     olds.push_back(old);
     dsched::point();
   }
   uint64_t tb = dsched::step();
-  uint64_t v = W->epoch.tick();
+  uint64_t v = d.epoch.tick();
   uint64_t te = dsched::step();
-  TRACE("tick -> %lu", (unsigned long)v);
-  if (v > W->last_tick) W->last_tick = v;
+  TRACE("%c tick -> %lu", d.name(), (unsigned long)v);
+  if (v > d.last_tick) d.last_tick = v;
   for (Node* o : olds) {
     o->tick = v;
     o->tick_begin_step = tb;
     o->tick_end_step = te;
-    ws.pending.push_back(o);
+    ws.ds[e].pending.push_back(o);
   }
 }
 
@@ -338,17 +409,19 @@ void poison(Node* n) {
   n->payload.set(POISON, "node payload (reclaim)");
 }
 
-// one low_water_mark() scan + the reclaim decision for this writer's retired nodes
-void poll(WriterState& ws) {
-  uint64_t count0 = W->lock_begin_count;
-  bool clean0 = W->locks_inflight == 0;
-  uint64_t lwm = W->epoch.low_water_mark();
-  TRACE("low_water_mark -> %lu", (unsigned long)lwm);
+// one low_water_mark() scan of Epoch instance e + the reclaim decision for this writer's retired nodes of e
+void poll(WriterState& ws, int e) {
+  Dom& d = *W->dom[e];
+  WriterDomState& s = ws.ds[e];
+  uint64_t count0 = d.lock_begin_count;
+  bool clean0 = d.locks_inflight == 0;
+  uint64_t lwm = d.epoch.low_water_mark();
+  TRACE("%c low_water_mark -> %lu", d.name(), (unsigned long)lwm);
   // --- no schedule point from here to the end of the checks ---
   bool blocked = false;
-  for (Node* o : ws.pending) {
+  for (Node* o : s.pending) {
     bool overlapped = false;
-    for (Region& r : W->regions) {
+    for (Region& r : d.regions) {
       // NT: the region overlapped this node's unlink -> tick -> scan window
       if (r.lock_begin_step != 0 && (!r.closed || r.closed_step >= o->unlink_begin_step)) overlapped = true;
       // the listed property, directly: region entered (lock returned) before the tick was started and not yet being
@@ -356,47 +429,51 @@ void poll(WriterState& ws) {
       // orders it after the reader's slot publication.)
       if (r.lock_done_step != 0 && r.lock_done_step < o->tick_begin_step && !r.unlock_begun && lwm >= o->tick)
         dsched::fail("mark-passed-open-region",
-                     "low_water_mark() returned %lu >= tick %lu (taken at steps %lu..%lu after node %d was unlinked) although a "
-                     "region locked at step %lu is still open",
-                     (unsigned long)lwm, (unsigned long)o->tick, (unsigned long)o->tick_begin_step, (unsigned long)o->tick_end_step,
-                     o->id, (unsigned long)r.lock_done_step);
+                     "low_water_mark() of epoch %c returned %lu >= tick %lu (taken at steps %lu..%lu after node %d was unlinked) "
+                     "although a region locked at step %lu is still open",
+                     d.name(), (unsigned long)lwm, (unsigned long)o->tick, (unsigned long)o->tick_begin_step,
+                     (unsigned long)o->tick_end_step, o->id, (unsigned long)r.lock_done_step);
       if (r.lock_done_step != 0 && r.lock_done_step < o->tick_begin_step && !r.unlock_begun) blocked = true;
     }
     if (overlapped) W->nt = true;
   }
-  if (blocked) dsched::label("scan_held_back_by_open_region");
+  if (blocked) {
+    dsched::label("scan_held_back_by_open_region");
+    if (e == 1) dsched::label("scan_of_B_held_back_by_open_region");
+  }
   // monotone per observer while no region opens (sequentially consistent reads only: a stale scan may legitimately
   // have missed a lock that a later scan sees)
-  if (!dsched::weak_mode() && ws.have_prev && ws.prev_clean && ws.prev_count == W->lock_begin_count && lwm < ws.prev_lwm)
-    dsched::fail("mark-monotone", "low_water_mark() went from %lu to %lu for writer %d although no region was opened in between",
-                 (unsigned long)ws.prev_lwm, (unsigned long)lwm, ws.id);
-  ws.have_prev = true;
-  ws.prev_lwm = lwm;
-  ws.prev_count = count0;
-  ws.prev_clean = clean0;
+  if (!dsched::weak_mode() && s.have_prev && s.prev_clean && s.prev_count == d.lock_begin_count && lwm < s.prev_lwm)
+    dsched::fail("mark-monotone", "low_water_mark() of epoch %c went from %lu to %lu for writer %d although no region was opened in between",
+                 d.name(), (unsigned long)s.prev_lwm, (unsigned long)lwm, ws.id);
+  s.have_prev = true;
+  s.prev_lwm = lwm;
+  s.prev_count = count0;
+  s.prev_clean = clean0;
   size_t keep = 0;
-  for (Node* o : ws.pending) {
+  for (Node* o : s.pending) {
     if (o->tick <= lwm) {
       poison(o);
       W->reclaimed_in_run++;
     } else {
-      ws.pending[keep++] = o;
+      s.pending[keep++] = o;
     }
   }
-  ws.pending.resize(keep);
+  s.pending.resize(keep);
 }
 
 void run_writer(WriterState& ws, const WriterPlan& plan) {
-  for (WOp op : plan.ops) {
-    switch (op) {
-      case W_REPLACE: unlink(ws, 1); break;
-      case W_REPLACE2: unlink(ws, 2); dsched::label("batched_unlink"); break;
-      case W_POLL: poll(ws); break;
+  for (size_t i = 0; i < plan.ops.size(); i++) {
+    int e = plan.dom[i];
+    switch (plan.ops[i]) {
+      case W_REPLACE: unlink(ws, e, 1); break;
+      case W_REPLACE2: unlink(ws, e, 2); dsched::label("batched_unlink"); break;
+      case W_POLL: poll(ws, e); break;
       case W_WAIT:
         // test_epoch.cpp: while (reclaim_version > epoch.low_water_mark()) sched_yield();
-        while (!ws.pending.empty()) {
-          poll(ws);
-          if (!ws.pending.empty()) dsched::yield_point();
+        while (!ws.ds[e].pending.empty()) {
+          poll(ws, e);
+          if (!ws.ds[e].pending.empty()) dsched::yield_point();
         }
         dsched::label("writer_waited_for_reclaim");
         break;
@@ -405,10 +482,11 @@ void run_writer(WriterState& ws, const WriterPlan& plan) {
 }
 
 // ---- generator --------------------------------------------------------------------
-// Ops of one session starting at nesting `depth` with `held` pointers; leaves *depth / *held at the end state.
-void gen_ops(Chooser& c, Session& s, int* depth, int* held, bool end_locked) {
+// Ops of one session on Epoch instance e starting at nesting `depth` with `held` pointers; leaves *depth / *held at
+// the end state.
+void gen_ops(Chooser& c, Session& s, int e, int* depth, int* held, bool end_locked) {
   int n = c.range(0, 6);
-  auto push = [&](ROp op, uint8_t a = 0) { s.ops.push_back(op); s.arg.push_back(a); };
+  auto push = [&](ROp op, uint8_t a = 0) { s.ops.push_back(op); s.arg.push_back(a); s.dom.push_back((uint8_t)e); };
   if (*depth == 0) { push(R_LOCK); (*depth)++; }
   for (int i = 0; i < n; i++) {
     if (*depth == 0) { push(R_LOCK); (*depth)++; continue; }
@@ -430,6 +508,35 @@ void gen_ops(Chooser& c, Session& s, int* depth, int* held, bool end_locked) {
   }
 }
 
+// How two op sequences (a ops on A, b ops on B; each valid on its own, the instances are independent) are woven into
+// one: result[i] = 0 / 1 = the next op is taken from A / B. All-zero input: A's ops, then B's.
+std::vector<uint8_t> weave(Chooser& c, size_t a, size_t b) {
+  std::vector<uint8_t> out;
+  unsigned mode = c.below(4);
+  auto block = [&](size_t outer_n, uint8_t outer, size_t inner_n, uint8_t inner) {
+    size_t at = c.below((uint32_t)outer_n + 1);
+    out.insert(out.end(), at, outer);
+    out.insert(out.end(), inner_n, inner);
+    out.insert(out.end(), outer_n - at, outer);
+  };
+  if (mode == 0) {  // free interleaving: partial overlaps, non-LIFO
+    size_t i = 0, j = 0;
+    while (i < a && j < b) {
+      if (c.flip()) { out.push_back(1); j++; } else { out.push_back(0); i++; }
+    }
+    out.insert(out.end(), a - i, 0);
+    out.insert(out.end(), b - j, 1);
+  } else if (mode == 1) {  // all of B somewhere inside A's sequence
+    block(a, 0, b, 1);
+  } else if (mode == 2) {  // all of A somewhere inside B's sequence
+    block(b, 1, a, 0);
+  } else {  // one after the other
+    if (c.flip()) { out.insert(out.end(), b, 1); out.insert(out.end(), a, 0); }
+    else { out.insert(out.end(), a, 0); out.insert(out.end(), b, 1); }
+  }
+  return out;
+}
+
 const char* rop_name(ROp o) {
   switch (o) { case R_LOCK: return "L"; case R_UNLOCK: return "U"; case R_LOAD: return "ld"; case R_DEREF: return "*"; default: return "."; }
 }
@@ -437,24 +544,27 @@ const char* rop_name(ROp o) {
 void run_case(Chooser& c) {
   auto world = std::make_unique<World>();
   W = world.get();
-  world->tl_style = c.flip();
+  world->dom[0] = std::make_unique<Dom>();
+  Dom& A = *world->dom[0];
+  A.tl_style = c.flip();
   int nw = c.range(1, 2);
   int nr = c.range(1, 4);
   {
     unsigned pm = c.below(4);
-    world->publish_mode = (nw == 1 && pm == 2) ? 1 : (nw == 1 && pm == 3) ? 2 : 0;
+    A.publish_mode = (nw == 1 && pm == 2) ? 1 : (nw == 1 && pm == 3) ? 2 : 0;
   }
+  static const WOp kinds[] = {W_REPLACE, W_POLL, W_REPLACE, W_POLL, W_REPLACE2, W_WAIT};
   std::vector<WriterPlan> wplans((size_t)nw);
   for (auto& p : wplans) {
     int n = c.range(1, 5);
-    static const WOp kinds[] = {W_REPLACE, W_POLL, W_REPLACE, W_POLL, W_REPLACE2, W_WAIT};
     for (int i = 0; i < n; i++) p.ops.push_back(c.pick(kinds));
+    p.dom.assign(p.ops.size(), 0);
   }
   std::vector<ReaderPlan> rplans((size_t)nr);
   // handoff pairs (Accessor style): sender i < receiver j, each reader sends at most once (its last session)
   // and receives at most once; a sender never belongs to a later wave than its receiver
   for (int j = 0; j < nr; j++) rplans[(size_t)j].wave = (j > 0 && c.chance(1, 4)) ? 1 : 0;
-  if (!world->tl_style)
+  auto gen_pairs = [&] {
     for (int j = 1; j < nr; j++) {
       if (!c.chance(1, 2)) continue;
       int i = (int)c.below((uint32_t)j);
@@ -462,50 +572,146 @@ void run_case(Chooser& c) {
       rplans[(size_t)i].send_to = j;
       rplans[(size_t)j].recv_from = i;
     }
-  struct Sent { int depth = 0, held = 0; };
+  };
+  if (!A.tl_style) gen_pairs();
+  struct Sent { bool has = false; int depth = 0, held = 0; };
+  static const SessEnd ends[] = {E_RELEASE, E_KEEP, E_DESTROY, E_MOVE_ASSIGN, E_KEEP};
   std::vector<Sent> sent((size_t)nr);
   for (int j = 0; j < nr; j++) {
     ReaderPlan& p = rplans[(size_t)j];
     int ns = c.range(1, 3);
-    int recv_at = p.recv_from >= 0 ? (int)c.below((uint32_t)ns) : -1;
+    p.recv_at = p.recv_from >= 0 ? (int)c.below((uint32_t)ns) : -1;
     bool have_acc = false;
     for (int k = 0; k < ns; k++) {
       Session s;
       int depth = 0, held = 0;
-      if (k == recv_at) {
-        s.src = S_RECV;
+      if (k == p.recv_at) {
+        s.src[0] = S_RECV;
         depth = sent[(size_t)p.recv_from].depth;
         held = sent[(size_t)p.recv_from].held;
       } else if (have_acc && c.flip()) {
-        s.src = S_KEPT;
+        s.src[0] = S_KEPT;
       } else {
-        s.src = S_NEW;
+        s.src[0] = S_NEW;
       }
       bool last = k == ns - 1;
       bool handoff = last && p.send_to >= 0;
       bool end_locked = handoff && !c.chance(1, 4);
-      gen_ops(c, s, &depth, &held, end_locked);
+      gen_ops(c, s, 0, &depth, &held, end_locked);
       if (handoff) {
-        s.end = E_HANDOFF;
+        s.end[0] = E_HANDOFF;
+        sent[(size_t)j].has = true;
         sent[(size_t)j].depth = depth;
         sent[(size_t)j].held = held;
         have_acc = false;
       } else {
-        static const SessEnd ends[] = {E_RELEASE, E_KEEP, E_DESTROY, E_MOVE_ASSIGN, E_KEEP};
-        s.end = c.pick(ends);
-        have_acc = s.end == E_KEEP || s.end == E_MOVE_ASSIGN;
+        s.end[0] = c.pick(ends);
+        have_acc = s.end[0] == E_KEEP || s.end[0] == E_MOVE_ASSIGN;
       }
       p.sessions.push_back(std::move(s));
     }
   }
 
+  // ---- second Epoch instance: every draw comes after those of the single-epoch program, which keeps its meaning ----
+  // (exhausted / all-zero input: one Epoch). B gets its own style, publish mode, writer ops and reader ops; they are
+  // woven into the ops on A per writer / per reader session.
+  if (c.chance(1, 3)) {
+    world->dom[1] = std::make_unique<Dom>();
+    world->ndom = 2;
+    Dom& B = *world->dom[1];
+    B.idx = 1;
+    B.tl_style = c.flip();
+    {
+      unsigned pm = c.below(4);
+      B.publish_mode = (nw == 1 && pm == 2) ? 1 : (nw == 1 && pm == 3) ? 2 : 0;
+    }
+    for (auto& p : wplans) {
+      int n = c.range(1, 4);
+      std::vector<WOp> b;
+      for (int i = 0; i < n; i++) b.push_back(c.pick(kinds));
+      std::vector<uint8_t> order = weave(c, p.ops.size(), b.size());
+      WriterPlan m;
+      size_t ia = 0, ib = 0;
+      for (uint8_t e : order) {
+        m.ops.push_back(e ? b[ib++] : p.ops[ia++]);
+        m.dom.push_back(e);
+      }
+      p = std::move(m);
+    }
+    // A is thread-local style and B is not: the hand-over pairs were not drawn yet
+    if (A.tl_style && !B.tl_style) gen_pairs();
+    std::vector<Sent> sent_b((size_t)nr);
+    for (int j = 0; j < nr; j++) {
+      ReaderPlan& p = rplans[(size_t)j];
+      int ns = (int)p.sessions.size();
+      if (p.recv_from >= 0 && p.recv_at < 0) p.recv_at = (int)c.below((uint32_t)ns);
+      bool have_acc = false;
+      for (int k = 0; k < ns; k++) {
+        Session& s = p.sessions[(size_t)k];
+        bool recv = !B.tl_style && k == p.recv_at && sent_b[(size_t)p.recv_from].has;
+        if (!recv && !c.chance(3, 4)) continue;  // this session works on A only
+        Session t;
+        int depth = 0, held = 0;
+        if (recv) {
+          t.src[1] = S_RECV;
+          depth = sent_b[(size_t)p.recv_from].depth;
+          held = sent_b[(size_t)p.recv_from].held;
+        } else if (!B.tl_style && have_acc && c.flip()) {
+          t.src[1] = S_KEPT;
+        }
+        bool last = k == ns - 1;
+        bool handoff = !B.tl_style && last && p.send_to >= 0;
+        bool end_locked = handoff && !c.chance(1, 4);
+        gen_ops(c, t, 1, &depth, &held, end_locked);
+        if (handoff) {
+          t.end[1] = E_HANDOFF;
+          sent_b[(size_t)j].has = true;
+          sent_b[(size_t)j].depth = depth;
+          sent_b[(size_t)j].held = held;
+          have_acc = false;
+        } else if (!B.tl_style) {
+          t.end[1] = c.pick(ends);
+          have_acc = t.end[1] == E_KEEP || t.end[1] == E_MOVE_ASSIGN;
+        }
+        std::vector<uint8_t> order = weave(c, s.ops.size(), t.ops.size());
+        Session m;
+        m.uses[1] = true;
+        m.src[0] = s.src[0];
+        m.end[0] = s.end[0];
+        m.src[1] = t.src[1];
+        m.end[1] = t.end[1];
+        size_t ia = 0, ib = 0;
+        for (uint8_t e : order) {
+          const Session& from = e ? t : s;
+          size_t& i = e ? ib : ia;
+          m.ops.push_back(from.ops[i]);
+          m.arg.push_back(from.arg[i]);
+          m.dom.push_back(e);
+          i++;
+        }
+        s = std::move(m);
+      }
+    }
+  }
+  const bool two = world->ndom == 2;
+
   static const char* pmn[] = {"exchange(acq_rel)", "store(release)", "store(seq_cst)"};
-  dsched::describe("%s publish=%s;", world->tl_style ? "thread-local" : "accessor", pmn[world->publish_mode]);
-  dsched::label(world->publish_mode == 0 ? "publish_exchange" : world->publish_mode == 1 ? "publish_store_release" : "publish_store_seq_cst");
+  if (!two) {
+    dsched::describe("%s publish=%s;", A.tl_style ? "thread-local" : "accessor", pmn[A.publish_mode]);
+  } else {
+    Dom& B = *world->dom[1];
+    dsched::describe("two epochs (ops on B marked '): A %s publish=%s, B %s publish=%s;", A.tl_style ? "thread-local" : "accessor",
+                     pmn[A.publish_mode], B.tl_style ? "thread-local" : "accessor", pmn[B.publish_mode]);
+    dsched::label("two_epochs");
+    dsched::label(A.tl_style && B.tl_style ? "two_epochs_both_thread_local" : !A.tl_style && !B.tl_style ? "two_epochs_both_accessor"
+                                                                                                       : "two_epochs_mixed_styles");
+  }
+  dsched::label(A.publish_mode == 0 ? "publish_exchange" : A.publish_mode == 1 ? "publish_store_release" : "publish_store_seq_cst");
   for (int i = 0; i < nw; i++) {
     dsched::describe(" W%d[", i);
     static const char* wn[] = {"replace", "poll", "replace2", "wait"};
-    for (size_t k = 0; k < wplans[(size_t)i].ops.size(); k++) dsched::describe("%s%s", k ? "," : "", wn[wplans[(size_t)i].ops[k]]);
+    const WriterPlan& p = wplans[(size_t)i];
+    for (size_t k = 0; k < p.ops.size(); k++) dsched::describe("%s%s%s", k ? "," : "", wn[p.ops[k]], p.dom[k] ? "'" : "");
     dsched::describe("]");
   }
   for (int j = 0; j < nr; j++) {
@@ -515,19 +721,22 @@ void run_case(Chooser& c) {
       Session& s = p.sessions[k];
       static const char* sn[] = {"new", "kept", "recv"};
       static const char* en[] = {"release", "keep", "destroy", "move-assign", "handoff"};
-      dsched::describe("%s%s:", k ? " | " : "", world->tl_style ? "tl" : sn[s.src]);
-      for (ROp o : s.ops) dsched::describe("%s", rop_name(o));
-      if (!world->tl_style) {
-        if (s.end == E_HANDOFF) dsched::describe(":handoff->R%d", p.send_to);
-        else dsched::describe(":%s", en[s.end]);
+      dsched::describe("%s%s", k ? " | " : "", A.tl_style ? "tl" : sn[s.src[0]]);
+      if (s.uses[1]) dsched::describe("+%s'", world->dom[1]->tl_style ? "tl" : sn[s.src[1]]);
+      dsched::describe(":");
+      for (size_t i = 0; i < s.ops.size(); i++) dsched::describe("%s%s", rop_name(s.ops[i]), s.dom[i] ? "'" : "");
+      for (int e = 0; e < world->ndom; e++) {
+        if (!s.uses[e] || world->dom[e]->tl_style) continue;
+        if (s.end[e] == E_HANDOFF) dsched::describe(":handoff%s->R%d", e ? "'" : "", p.send_to);
+        else dsched::describe(":%s%s", en[s.end[e]], e ? "'" : "");
       }
     }
     dsched::describe("]");
   }
-  dsched::label(world->tl_style ? "style_thread_local" : "style_accessor");
+  dsched::label(A.tl_style ? "style_thread_local" : "style_accessor");
 
   for (int j = 0; j < nr; j++) world->mail.push_back(std::make_unique<Mailbox>());
-  world->head.store(new_node(), std::memory_order_release);
+  for (int e = 0; e < world->ndom; e++) world->dom[e]->head.store(new_node(e), std::memory_order_release);
 
   std::vector<WriterState> wstates((size_t)nw);
   for (int i = 0; i < nw; i++) wstates[(size_t)i].id = i;
@@ -546,24 +755,30 @@ void run_case(Chooser& c) {
   for (auto& t : writers) t.join();
 
   // quiescent: every region is closed, every accessor unlocked or released => nothing holds the mark back
-  for (Region& r : world->regions)
-    if (!r.closed) dsched::fail("harness", "a region is still open at the end of the program");
-  uint64_t lwm = world->epoch.low_water_mark();
-  if (world->last_tick != 0 && lwm < world->last_tick)
-    dsched::fail("mark-held-back", "all regions are closed and all accessors unlocked or released, but low_water_mark() == %lu < last tick %lu",
-                 (unsigned long)lwm, (unsigned long)world->last_tick);
+  for (int e = 0; e < world->ndom; e++) {
+    Dom& d = *world->dom[e];
+    for (Region& r : d.regions)
+      if (!r.closed) dsched::fail("harness", "a region of epoch %c is still open at the end of the program", d.name());
+    uint64_t lwm = d.epoch.low_water_mark();
+    if (d.last_tick != 0 && lwm < d.last_tick)
+      dsched::fail("mark-held-back",
+                   "all regions are closed and all accessors unlocked or released, but low_water_mark() of epoch %c == %lu < last tick %lu",
+                   d.name(), (unsigned long)lwm, (unsigned long)d.last_tick);
+  }
   int at_end = 0;
   for (auto& ws : wstates)
-    for (Node* o : ws.pending) {
-      poison(o);
-      at_end++;
-    }
+    for (int e = 0; e < world->ndom; e++)
+      for (Node* o : ws.ds[e].pending) {
+        poison(o);
+        at_end++;
+      }
   if (world->reclaimed_in_run) dsched::label_n("reclaimed_during_run", (uint32_t)world->reclaimed_in_run);
   if (at_end) dsched::label_n("reclaimed_at_end", (uint32_t)at_end);
   if (world->nt) dsched::nontrivial();
-  for (Region& r : world->regions) dsched::mix_hash(r.lock_done_step * 1000003u + r.reads.size());
+  for (int e = 0; e < world->ndom; e++)
+    for (Region& r : world->dom[e]->regions) dsched::mix_hash(r.lock_done_step * 1000003u + r.reads.size());
   for (auto& n : world->nodes) dsched::mix_hash(n->poisoned_step * 31 + n->tick);
-  // accessors that are still alive must go before the epoch: kept (unlocked) ones and an undelivered mailbox
+  // accessors that are still alive must go before their epoch: kept (unlocked) ones and an undelivered mailbox
   world->kept.clear();
   world->mail.clear();
   W = nullptr;
